@@ -337,31 +337,33 @@ func (n *BaseNode) ReplaceChild(self, v1, insertee Node) {
 
 // InsertAfter implements Node.InsertAfter .
 func (n *BaseNode) InsertAfter(self, v1, insertee Node) {
-	n.InsertBefore(self, v1.NextSibling(), insertee)
+	next := v1.NextSibling()
+	if next == insertee && v1.Parent() == self {
+		return
+	}
+	n.InsertBefore(self, next, insertee)
 }
 
 // InsertBefore implements Node.InsertBefore .
 func (n *BaseNode) InsertBefore(self, v1, insertee Node) {
-	n.childCount++
-	if v1 == nil {
+	if v1 == nil || v1.Parent() != self {
 		n.AppendChild(self, insertee)
 		return
 	}
 	ensureIsolated(insertee)
-	if v1.Parent() == self {
-		c := v1
-		prev := c.PreviousSibling()
-		if prev != nil {
-			prev.SetNextSibling(insertee)
-			insertee.SetPreviousSibling(prev)
-		} else {
-			n.firstChild = insertee
-			insertee.SetPreviousSibling(nil)
-		}
-		insertee.SetNextSibling(c)
-		c.SetPreviousSibling(insertee)
-		insertee.SetParent(self)
+	n.childCount++
+	c := v1
+	prev := c.PreviousSibling()
+	if prev != nil {
+		prev.SetNextSibling(insertee)
+		insertee.SetPreviousSibling(prev)
+	} else {
+		n.firstChild = insertee
+		insertee.SetPreviousSibling(nil)
 	}
+	insertee.SetNextSibling(c)
+	c.SetPreviousSibling(insertee)
+	insertee.SetParent(self)
 }
 
 // OwnerDocument implements Node.OwnerDocument.
